@@ -155,7 +155,34 @@ Proof.
     exists ms, st', rest. inversion E; subst. split; [reflexivity|]. vm_compute. intuition discriminate.
 Qed.
 
-(* ---- witnesses of the two defects repaired in /repo *)
+(* a FRESH iterator (nothing latched) on a byte string of one framing f that does not contain the other framing's
+   marker yields exactly the messages an iterator with f already latched yields; as soon as one message was
+   yielded the two runs coincide completely.  (With the marker of the other framing in s a fresh iterator may
+   legitimately latch that framing instead: detection is by first success.) *)
+Theorem C04_fresh_like_latched f fuel nfuel st s ms st' rest :
+  i_det_storage st = false -> i_det_serial st = false -> no_other_marker f s ->
+  drain_fuel fuel nfuel st s = Ok (ms, st', rest) ->
+  exists st'' rest'', drain_fuel fuel nfuel (latch f st) s = Ok (ms, st'', rest'') /\
+                      i_index st'' = i_index st' /\
+                      (ms <> [] -> st'' = st' /\ rest'' = rest).
+Proof. exact (fresh_like_latched f fuel nfuel st s ms st' rest). Qed.
+
+(* the position clause without the latch in the statement: what a fresh iterator (start index 0) recognises in a
+   suffix s is what the iterator recognises there when it arrives behind k >= 1 whole messages of the same framing,
+   indices advanced by the prefix; if s yields a message at all, also state and unconsumed rest agree (shifted) *)
+Theorem C04_position_independent_fresh f l s st fuel nfuel ms st' rest :
+  st_ok f st -> prefix_ok f l s -> l <> [] -> no_other_marker f s ->
+  drain_fuel fuel (S nfuel) (ist_new 0) s = Ok (ms, st', rest) ->
+  i_index st + N.of_nat (length l) + i_index st' <= u32max ->
+  exists st'' rest'',
+    drain_fuel (length l + fuel) (S nfuel) st (encs f l ++ s) =
+    Ok (expect_from f (i_index st) l ++ map (msg_shift (i_index st + N.of_nat (length l))) ms, st'', rest'') /\
+    (ms <> [] ->
+     st'' = ist_shift (i_index st + N.of_nat (length l)) (i_processed st + blen (encs f l)) (i_skipped st) st' /\
+     rest'' = rest).
+Proof. exact (position_independent_fresh f l s st fuel nfuel ms st' rest). Qed.
+
+(* ---- witnesses of the defects repaired in /repo *)
 
 (* (a) before commit bfc66da: `copy_within(pos..cap, offset)` left buf[0..offset] stale although abs_pos claimed
    it.  Capacity 3*4096, low mark 4096, source byte i = i mod 251: consume 12188, refill, seek(Start(12187)) is
@@ -194,6 +221,24 @@ Theorem C04_chunk_dependence_below_lookahead :
   payload_sizes (run_iter_rd 0 (LOOKAHEAD + 4096) LOOKAHEAD max_frame_witness [65551]) = Some [65411; 5].
 Proof. vm_compute. auto. Qed.
 
+(* (c) repaired by /repo commit 9045554 (found by the suffix oracle of the harness; introduced by the earlier repair
+   47301c0 of the tiny-serial-stream defect): a storage header whose length field claims more bytes than remain
+   stopped an iterator with the storage framing latched, while a fresh iterator fell through to the serial attempt,
+   skipped on and recognised the frame behind it.  On the witness (20-byte frame ++ header announcing 0x2004 bytes
+   ++ 24-byte frame) the fresh iterator on the suffix now stops like the latched one; the general statement is
+   C04_fresh_like_latched below. *)
+Definition short_frame_witness_suffix : bytes :=
+  [68; 76; 84; 1; 0; 0; 0; 0; 0; 0; 0; 0; 69; 67; 85; 49; 32; 0; 32; 4] ++
+  [68; 76; 84; 1; 0; 0; 0; 0; 0; 0; 0; 0; 69; 67; 85; 49; 32; 1; 0; 8; 9; 9; 9; 9].
+Definition short_frame_witness_prefix : bytes :=
+  [68; 76; 84; 1; 0; 0; 0; 0; 0; 0; 0; 0; 69; 67; 85; 49; 32; 0; 0; 4].
+Theorem C04_fresh_suffix_stops_like_latched :
+  payload_sizes (run_iter 0 (short_frame_witness_prefix ++ short_frame_witness_suffix)) = Some [0] /\
+  payload_sizes (run_iter 1 short_frame_witness_suffix) = Some [] /\
+  payload_sizes (drain_fuel 50 50 (latched Storage (ist_new 0)) short_frame_witness_suffix) = Some [].
+Proof. vm_compute. auto. Qed.
+
+
 (* ---- non-vacuity: a concrete source with short reads, several compactions, a backward and a forward seek
    satisfies the hypotheses of C04_reader_refines_stream, and the run really compacts (abs_pos > 0) *)
 Example C04_nonvacuous :
@@ -229,4 +274,7 @@ Print Assumptions C04_position_independent.
 Print Assumptions C04_position_nonvacuous.
 Print Assumptions C04_seek_stale_before_fix.
 Print Assumptions C04_chunk_dependence_below_lookahead.
+Print Assumptions C04_fresh_suffix_stops_like_latched.
+Print Assumptions C04_fresh_like_latched.
+Print Assumptions C04_position_independent_fresh.
 Print Assumptions C04_nonvacuous.
